@@ -132,9 +132,11 @@ def e2_scenarios(tier):
   b = dict(deferred=False, times=1, kind="lifo", capacity=2, existing=1, pending=0)
   c = dict(deferred=False, times=2, kind="fifo", capacity=2, existing=0, pending=0)
   d = dict(deferred=True, times=1, kind="lifo", capacity=2, existing=1, pending=1)
+  # a third party cancels another tracked source while the post is being made: the new source must still fire exactly n times
+  e = dict(deferred=False, times=1, kind="fifo", capacity=2, existing=1, pending=0, canceller="old")
   if tier == "quick":
-    return [(a, 30), (b, 26)]
-  return [(a, 36), (b, 32), (c, 34), (d, 32)]
+    return [(a, 30), (b, 26), (e, 30)]
+  return [(a, 36), (b, 32), (c, 34), (d, 32), (e, 36)]
 
 
 def e2_specs(tier):
